@@ -16,6 +16,20 @@ func ThreadSafeDuplex[T uint32 | uint64](provider Duplex[T]) Duplex[T] {
 	}
 }
 
+// operandSnapshot returns a private copy of a thread-safe operand, taken under the operand's own lock. Binary operations
+// use it so that they never hold two wrapper locks at once (a.Or(b) racing b.Or(a) would otherwise deadlock, as would
+// a.Or(a)) and so that they observe a single consistent state of the operand.
+func operandSnapshot[T uint32 | uint64](other Provider[T]) Provider[T] {
+	if typedOther, isThreadSafe := other.(threadSafeDuplex[T]); isThreadSafe {
+		typedOther.lock.Lock()
+		defer typedOther.lock.Unlock()
+
+		return typedOther.provider.Clone()
+	}
+
+	return other
+}
+
 func (s threadSafeDuplex[T]) Clear() {
 	s.lock.Lock()
 	defer s.lock.Unlock()
@@ -31,6 +45,8 @@ func (s threadSafeDuplex[T]) Add(values ...T) {
 }
 
 func (s threadSafeDuplex[T]) AndNot(other Provider[T]) {
+	other = operandSnapshot(other)
+
 	s.lock.Lock()
 	defer s.lock.Unlock()
 
@@ -45,6 +61,8 @@ func (s threadSafeDuplex[T]) Remove(value T) {
 }
 
 func (s threadSafeDuplex[T]) Xor(other Provider[T]) {
+	other = operandSnapshot(other)
+
 	s.lock.Lock()
 	defer s.lock.Unlock()
 
@@ -52,6 +70,8 @@ func (s threadSafeDuplex[T]) Xor(other Provider[T]) {
 }
 
 func (s threadSafeDuplex[T]) And(other Provider[T]) {
+	other = operandSnapshot(other)
+
 	s.lock.Lock()
 	defer s.lock.Unlock()
 
@@ -59,6 +79,8 @@ func (s threadSafeDuplex[T]) And(other Provider[T]) {
 }
 
 func (s threadSafeDuplex[T]) Or(other Provider[T]) {
+	other = operandSnapshot(other)
+
 	s.lock.Lock()
 	defer s.lock.Unlock()
 
